@@ -123,6 +123,42 @@ func solvePortfolio(script string, secs, seed int) SolveResult {
 
 var raceSem = make(chan struct{}, 4)
 
+// solveQuick: the two z3 5.1 configurations only, raced for secs — for the cheap first attempts (ground-instance
+// script, slices, case split), where a proof is found at once or not at all.
+func solveQuick(script string, secs, seed int) SolveResult {
+	f, _ := os.CreateTemp(scratchDir(), "govc-*.smt2")
+	f.WriteString(script)
+	f.Close()
+	defer os.Remove(f.Name())
+	res := SolveResult{Tried: map[string]string{}, Verdict: "unknown"}
+	t0 := time.Now()
+	quickSem <- struct{}{}
+	defer func() { <-quickSem }()
+	ctx, cancel := context.WithCancel(context.Background())
+	defer cancel()
+	type r struct{ name, v, out string }
+	ch := make(chan r, 2)
+	for _, i := range []int{0, 1} {
+		sc := solverTable[i]
+		go func() {
+			v, out, _ := runSolver(ctx, sc, f.Name(), secs, seed)
+			ch <- r{sc.name, v, out}
+		}()
+	}
+	for k := 0; k < 2; k++ {
+		x := <-ch
+		res.Tried[x.name] = x.v
+		if x.v == "unsat" || x.v == "sat" {
+			res.Verdict, res.Solver, res.Output = x.v, x.name, x.out
+			break
+		}
+	}
+	res.Secs = time.Since(t0).Seconds()
+	return res
+}
+
+var quickSem = make(chan struct{}, 7)
+
 // wallFactor: wall-clock backstop as a multiple of the CPU budget.
 const wallFactor = 6
 
